@@ -251,6 +251,25 @@ def rule_d(prog, rep):
     alld = tm.contains(v, lambda x: x.op == "call" and tm.callee_name(x) == "builtins.all")
     rep.check(it_self and get_other and alld, "R-C15-d", fi.fq, "__eq__ compares the row ids of every entry of self with the same key of other", "",
               "entries are not all compared", witness={"inputs": "same shape/common, different rows"})
+    # the per-entry comparison is a SYMMETRIC equality of the two row-id arrays
+    SYM = ("numpy.setxor1d", "numpy.array_equal", "numpy.array_equiv")
+    ONE = ("set_operations:difference", "set_operations:set_difference_merge_np", "numpy.setdiff1d", "numpy.isin", "numpy.in1d")
+    sym = [x for x in tm.walk(v) if x.op == "call" and tm.callee_name(x) in SYM]
+    one = [x for x in tm.walk(v) if x.op == "call" and tm.callee_name(x) in ONE]
+    elementwise = tm.contains(v, lambda x: x.op == "cmp" and x.args[0] == "==" and any(a.op == "dval" for a in x.args[1:]))
+    if sym or elementwise:
+        rep.proved("R-C15-d", fi.fq, "per entry, the two row-id arrays are compared symmetrically", "%s" % (tm.callee_name(sym[0]) if sym else "element-wise =="))
+    elif one:
+        dirs = {tuple(tm.show(a)[:40] for a in x.args[1][:2]) for x in one}
+        both = any((b, a) in dirs for a, b in dirs)
+        if both:
+            rep.proved("R-C15-d", fi.fq, "per entry, the two row-id arrays are compared symmetrically", "both one-sided differences are taken")
+        else:
+            rep.violated("R-C15-d", fi.fq, "per entry, the two row-id arrays are compared symmetrically",
+                         "the comparison is the ONE-SIDED %s(self rows, other rows): it only says that self's rows are a subset of other's, so a == b can be True while b == a is False and the dense contents differ" % tm.callee_name(one[0]).split(":")[-1],
+                         witness={"inputs": "b = a.copy(); b.update({(1,): [more rows]}): a == b is True, b == a is False"})
+    else:
+        rep.undecided("R-C15-d", fi.fq, "per entry, the two row-id arrays are compared symmetrically", "comparison not recognised")
     rep.check(len_both, "R-C15-d", fi.fq, "__eq__ compares the number of entries (so keys only in other are noticed)", "",
               "an entry present only in the right operand goes unnoticed", witness={"inputs": "b has one more entry than a"})
     conj = v.op == "bool" and v.args[0] == "and"
